@@ -145,6 +145,15 @@ def compare_slice(res, single, pos, cshape):
         ok = _tensor_close(e, single.array, proj)
         if ok and (res.tensor_shape != single.tensor_shape or getattr(res, "is_dual", None) != getattr(single, "is_dual", None)):
             return False, "index types / duality flag differ"
+        k = len(cshape)
+        if ok and (set(res._covariant_indices) != {i + k for i in single._covariant_indices} or set(res._contravariant_indices) != {i + k for i in single._contravariant_indices}):
+            return False, (f"index positions of the collection result (covariant {sorted(res._covariant_indices)}, contravariant {sorted(res._contravariant_indices)}) are not those of the "
+                           f"single result shifted by the {k} collection axes (covariant {sorted(single._covariant_indices)}, contravariant {sorted(single._contravariant_indices)})")
+        if ok and k and isinstance(single, ProjectiveTensor):
+            from geometer.base import TensorCollection
+
+            if not isinstance(res, TensorCollection) or not isinstance(single, getattr(res, "_element_class", object)):
+                return False, f"the collection result is a {type(res).__name__}, the single results are {type(single).__name__} objects: not a collection of them"
         return ok, "element of the collection result differs from the single-object result"
     if isinstance(res, np.ndarray) or isinstance(res, (bool, int, float, complex, np.generic)):
         r = np.asarray(res)
@@ -632,6 +641,15 @@ def f28_perpendicular_plane_collection(rec, feat):
         and " raised " in rec["what"]
 
 
-CLASSIFIERS = {"f27_coincident_position_nan": f27_coincident_position_nan, "f28_perpendicular_plane_collection": f28_perpendicular_plane_collection,
+def f32_transformation_collection_on_single(rec, feat):
+    """A TransformationCollection applied to a single (non-collection) object: Tensor.__apply__ returns a copy of the *single* object whose
+    array has the collection axes of the transformation, i.e. an instance of Point / Line / Conic ... instead of the collection class.
+    (The values and, since 67b25ad, the index positions are right.)"""
+    cls, coll = feat.get("classes", []), feat.get("coll", [])
+    return rec["monitor"] == "shadow" and feat.get("op") in ("TransformationTensor.apply", "TransformationTensor.__mul__") and len(cls) == 2 \
+        and cls[0] == "TransformationCollection" and list(coll[1:]) == [0] and "not a collection of them" in rec["what"]
+
+
+CLASSIFIERS = {"f32_transformation_collection_on_single": f32_transformation_collection_on_single, "f27_coincident_position_nan": f27_coincident_position_nan, "f28_perpendicular_plane_collection": f28_perpendicular_plane_collection,
                "f4_polytope_collection_indexing": f4_polytope_collection_indexing, "f26_polygon2d_intersect_collection": f26_polygon2d_intersect_collection,
                "f4_polygon_collection_3d_points": f4_polygon_collection_3d_points}
